@@ -876,6 +876,30 @@ pub fn c04_e2e_one(
             Err(p) => rep.violation("build:panic", format!("build panicked: {}", p), walk_case_json(pats, c, "build")),
         }
     }
+    // The two conversion routes: a contiguous NFA and a DFA built FROM a
+    // noncontiguous NFA that was built separately. The documentation says that
+    // only dense_depth / byte_classes (contiguous) resp. start_kind /
+    // byte_classes (DFA) of the converting builder apply, so that builder is
+    // deliberately given OTHER values for everything else; the result must
+    // search like the NFA it came from.
+    if let Some(c0) = cfgs.first() {
+        let base = Cfg { imp: Imp::LowNnfa, ..*c0 };
+        if let Ok(Ok(nn)) = guard(|| base.nnfa_builder().build(pats)) {
+            let other_kind = if base.kind == Kind::Standard { Kind::LeftmostFirst } else { Kind::Standard };
+            let odd = Cfg { kind: other_kind, ci: !base.ci, pre: !base.pre, ..base };
+            let via_c = guard(|| odd.cnfa_builder().build_from_noncontiguous(&nn));
+            let via_d = guard(|| odd.dfa_builder().build_from_noncontiguous(&nn));
+            match via_c {
+                Ok(Ok(a)) => built.push((Cfg { imp: Imp::LowCnfa, ..base }, S::C(a))),
+                other => rep.violation("build:from_noncontiguous", format!("contiguous::Builder::build_from_noncontiguous failed: {:?}", other.map(|r| r.map(|_| ()).map_err(|e| e.to_string()))), walk_case_json(pats, &base, "build")),
+            }
+            match via_d {
+                Ok(Ok(a)) => built.push((Cfg { imp: Imp::LowDfa, ..base }, S::D(a))),
+                other => rep.violation("build:from_noncontiguous", format!("dfa::Builder::build_from_noncontiguous failed: {:?}", other.map(|r| r.map(|_| ()).map_err(|e| e.to_string()))), walk_case_json(pats, &base, "build")),
+            }
+            rep.tally("conversion_routes_built");
+        }
+    }
     if built.len() < 2 {
         return;
     }
